@@ -135,6 +135,13 @@ const PAIRS: &[(&str, &str, &str, &str)] = &[
     // ---- projective transforms are not affine
     ("projective-as-affine", "Matrix::inverse", "let _r = q_a.inverse();", "let _r = m_ab.inverse();"),
     ("projective-as-affine", "Matrix::transpose", "let _r = q_a.transpose();", "let _r = m_ab.transpose();"),
+    // rejected by an inline const assertion: only a full build (not `cargo check`) reports it
+    ("mixed-dimension", "Matrix::transpose of a 2x2 matrix tagged as a map of 3-space",
+        "let m: retrofire_core::math::mat::Matrix<[[f32; 2]; 2], RealToReal<3, A, B>> = retrofire_core::math::mat::Matrix::new([[1.0, 2.0], [3.0, 4.0]]); let _t = m.transpose();",
+        "let m: retrofire_core::math::mat::Matrix<[[f32; 3]; 3], RealToReal<3, A, B>> = retrofire_core::math::mat::Matrix::new([[1.0; 3]; 3]); let _t: retrofire_core::math::mat::Matrix<[[f32; 3]; 3], RealToReal<3, B, A>> = m.transpose();"),
+    ("mixed-dimension", "Matrix::transpose of a 3x3 matrix tagged as a map of 4-space",
+        "let m: retrofire_core::math::mat::Matrix<[[f32; 3]; 3], RealToReal<4, A, B>> = retrofire_core::math::mat::Matrix::new([[1.0; 3]; 3]); let _t = m.transpose();",
+        "let m: retrofire_core::math::mat::Matrix<[[f32; 4]; 4], RealToReal<4, A, B>> = retrofire_core::math::mat::Matrix::new([[1.0; 4]; 4]); let _t = m.transpose();"),
     ("projective-as-affine", "apply twice", "let _r = q_a.apply(&q_a.apply(&p3a));", "let _r = q_a.apply(&p3a);"),
     ("projective-as-affine", "apply_pt", "let _r = q_a.apply_pt(&p3a);", "let _r = q_a.apply(&p3a);"),
     ("projective-as-affine", "projective as inner map", "let _r = m_ab.compose(&q_a);", "let _r = q_b.compose(&m_ab);"),
@@ -821,7 +828,13 @@ pub fn evaluate(cx: &mut Ctx, sub: &str, twins: &[Program], misuse: &[Program], 
             let (d1, ok1) = cargo_json(&single, true)?;
             obs.evals_n(1);
             obs.class("recompiled-alone");
-            ds = d1.into_iter().filter(|d| owner(&r1, d.line).is_some()).collect();
+            // the crate holds this one case: every error is its own, including post-monomorphisation errors (E0080 from an
+            // inline `const { assert!(..) }`), whose primary span lies in the library and which only a full build reports
+            let _ = &r1;
+            if d1.iter().any(|d| d.code == "E0080") {
+                obs.class("rejected only by a full build (post-monomorphisation error)");
+            }
+            ds = d1;
             if ds.is_empty() && !ok1 {
                 return Err(format!("case {} failed to build alone without an attributable diagnostic", p.name));
             }
